@@ -332,6 +332,40 @@ def run_case(case, workdir):
                     rec.fail("raised", sub, exc_text(val))
                 elif not same(val, exp):
                     rec.fail("values", sub, "wrong data under this task order")
+    # LAST (it changes what is on disk): level stream objects that the caller keeps while another time step of the same run is
+    # moved over the plotfile (every binary file replaced by rename: same names, layout and sizes, new inodes, other values) -
+    # a selection returns what is stored on disk NOW
+    from ..common import _negate_payloads, negated
+    with vpool.controlled():
+        kept = {}
+        for lv in range(ref.nlevels):
+            if case.get("boxes_only") and lv != case.get("devlevel"):
+                continue
+            kept[lv] = (pck[:][lv], pck[names[-1]][lv])
+            call(lambda: kept[lv][0][0])
+            call(lambda: kept[lv][1][len(ref.boxes[lv]) - 1])
+    try:
+        _negate_payloads(path, new_inodes=True)
+        replaced = True
+    except Exception:
+        replaced = False
+    if replaced:
+        for lv, (s_all, s_last) in kept.items():
+            nb = len(ref.boxes[lv])
+            with vpool.controlled():
+                st, val = call(lambda: [s_all[0], s_last[nb - 1], s_all[list(range(min(nb, 3)))], pck[:][lv][nb - 1]])
+            rec.exe([dh, "time_step_replaced", lv], nontrivial=True, trans=4)
+            sub = {"field": ["slice", None, None, None], "level": lv, "class": "A",
+                   "box": ["history", "streams kept while the binary files were replaced by another time step (rename)"]}
+            if st == "exc":
+                rec.fail("raised", sub, exc_text(val))
+                continue
+            exps = [negated(expected(ref, lv, slice(None), 0)), negated(expected(ref, lv, len(names) - 1, nb - 1)),
+                    [negated(e_) for e_ in expected(ref, lv, slice(None), list(range(min(nb, 3))))], negated(expected(ref, lv, slice(None), nb - 1))]
+            for k, (v, e) in enumerate(zip(val, exps)):
+                if not same(v, e):
+                    rec.fail("values", dict(sub, call=k), "read %d returned what the plotfile held BEFORE it was replaced" % k)
+                    break
     rec.sample({"desc": desc, "selection": "pck[field_sel][level][box_sel] over the selector alphabets"})
     return rec.result()
 
